@@ -120,11 +120,11 @@ pub open spec fn flat<B>(o: Seq<Vec<B>>) -> Seq<B>
 {
     if o.len() == 0 { Seq::empty() } else { flat(o.drop_last()) + o.last()@ }
 }
-pub trait VpSliceIterExt<'a, T: 'a>: Sized {
+pub trait VpSliceIterExt<'a, T: 'a>: Sized + Iterator<Item = &'a T> {
     fn vp_filter_map<B, F: FnMut(&'a T) -> Option<B>>(self, f: F) -> (r: std::vec::IntoIter<B>)
         requires forall|x: &'a T| #[trigger] call_requires(f, (x,));
     fn vp_flat_map<B, F: FnMut(&'a T) -> Vec<B>>(self, f: F) -> (r: std::vec::IntoIter<B>)
-        requires forall|x: &'a T| #[trigger] call_requires(f, (x,));
+        requires forall|j: int| 0 <= j < self.remaining().len() ==> call_requires(f, (#[trigger] self.remaining()[j],));
     fn vp_find_map<B, F: FnMut(&'a T) -> Option<B>>(self, f: F) -> (r: Option<B>)
         requires forall|x: &'a T| #[trigger] call_requires(f, (x,));
 }
